@@ -36,6 +36,12 @@ func init() {
 		zz + "PoolMode":     extPoolMode,
 		zz + "Freeze":       extFreeze,
 		zz + "Fail":         extFail,
+		zz + "IteInt": func(e *Exec, _ *frame, _ token.Pos, _ *ssa.Function, a []Value) Value {
+			return e.ts.Ite(a[0].(*Term), a[1].(*Term), a[2].(*Term))
+		},
+		zz + "Implies": func(e *Exec, _ *frame, _ token.Pos, _ *ssa.Function, a []Value) Value {
+			return e.ts.Implies(a[0].(*Term), a[1].(*Term))
+		},
 
 		"fmt.Sprintf":  extSprintf,
 		"fmt.Errorf":   extErrorf,
@@ -519,6 +525,7 @@ func extPoolGet(e *Exec, fr *frame, pos token.Pos, fn *ssa.Function, args []Valu
 		if k >= 0 {
 			it := bag.items[k]
 			bag.items = append(bag.items[:k:k], bag.items[k+1:]...)
+			e.markPooled(it, false)
 			return it
 		}
 	}
@@ -550,7 +557,41 @@ func extPoolPut(e *Exec, fr *frame, pos token.Pos, fn *ssa.Function, args []Valu
 		}
 	}
 	bag.items = append(bag.items, x)
+	e.markPooled(x, true)
 	return nil
+}
+
+// markPooled flags (or clears) the cells of an object that sits in a sync.Pool; any load or
+// store through them is a use-after-release.
+func (e *Exec) markPooled(x Value, on bool) {
+	iv, ok := x.(IfaceV)
+	if !ok {
+		return
+	}
+	p, ok := iv.v.(PtrV)
+	if !ok {
+		return
+	}
+	c, ok := p.single()
+	if !ok {
+		return
+	}
+	if e.pooled == nil {
+		e.pooled = map[*Value]bool{}
+	}
+	set := func(q *Value) {
+		if on {
+			e.pooled[q] = true
+		} else {
+			delete(e.pooled, q)
+		}
+	}
+	set(c)
+	if sv, ok := (*c).(StructV); ok {
+		for i := range sv {
+			set(&sv[i])
+		}
+	}
 }
 
 func extOnceDo(e *Exec, fr *frame, pos token.Pos, fn *ssa.Function, args []Value) Value {
@@ -953,4 +994,36 @@ func (e *Exec) noteFrozenWrite(fr *frame, instr ssa.Instruction) {
 		pos = fr.fn.String() + "@" + e.posStr(instr.Pos())
 	}
 	e.assertProp(e.ts.False, "write to frozen (shared) object at "+pos, pos)
+}
+
+// NondetPick[T](name, cands []T) T: a symbolic selection among the candidates, merged with
+// ite (pointers become guarded target sets). Falls back to a concrete fork when the
+// candidates cannot be merged.
+func extNondetPick(e *Exec, _ *frame, _ token.Pos, _ *ssa.Function, args []Value) Value {
+	name := e.freshName(e.concStr(args[0], "NondetPick"))
+	cands := args[1].(SliceV).data
+	n := len(cands)
+	if n == 0 {
+		panic(pathEnd{"NondetPick of nothing"})
+	}
+	if n == 1 {
+		e.vec = append(e.vec, VecEntry{Name: name, Val: 0})
+		return cands[0]
+	}
+	sel := e.ts.Var(name, 64)
+	acc := cands[n-1]
+	ok := true
+	for i := n - 2; i >= 0 && ok; i-- {
+		var m Value
+		m, ok = e.mergeVal(e.ts.Eq(sel, e.ts.Const(64, uint64(i))), cands[i], acc)
+		acc = m
+	}
+	if !ok {
+		k := e.choose(n, name)
+		e.vec = append(e.vec, VecEntry{Name: name, Val: int64(k)})
+		return cands[k]
+	}
+	e.vec = append(e.vec, VecEntry{Name: name, T: sel})
+	e.assertPC(e.ts.Cmp(OpULt, sel, e.ts.Const(64, uint64(n))))
+	return acc
 }
